@@ -1481,7 +1481,7 @@ func probeUid(r *mon.Run, root string) (bool, string) {
 }
 
 func Run(r *mon.Run) {
-	r.Rule = "one distinct case = (set of injected start-up faults by name, informational flag, TTY or not, and - engines long/longpair - the length (300, 450, 600, 1000, 1500, 2500, 3900 bytes) and shape (many short components, few components of up to NAME_MAX bytes, mixed; host names: 100-253 characters, one long label, many labels, many words) of each fault's operand, with or without -callback-address values of 2-8 KiB, and - engines logged/loggedpair - the way an OPENABLE log file is configured on top: -log or CURLREVSHELL_LOG, file fresh or already there; engines stdio/stdiopair - what descriptors 0, 1 and 2 are while the pty stays the CONTROLLING terminal: the terminal, /dev/null, a pipe, a regular file, closed) for fault runs, (way of ending, option set) for clean exits, (way of ending, what descriptors 0-2 are, option set) for clean exits with redirected descriptors (engine stdioclean), (kind of unusable Ctrl+I source or member, member name, -print-ctrl-i on a TTY / without one / into a pipe / into a file or Tab / Ctrl+J followed by Ctrl+C / Ctrl+D, other fault) for the Ctrl+I source runs (engine ctrlisrc), (way of ending, when Tab was pressed relative to it, shell none/attached/stalled, kind of Ctrl+I source, option set) for exits with insertions pending, (signals / terminal events delivered to the running program: SIGCONT alone, to the process or its group, SIGSTOP-SIGCONT, SIGTSTP-SIGCONT, a stop with the terminal handed back and forth as a job-control shell does, SIGWINCH, a real window-size change, a window-size change while stopped, or a drawn sequence of 2-5 of these; the moment: idle prompt, half-typed line, shell attached and talking, muted, right before the exit; the self-exit that follows: Ctrl+C, Ctrl+D, -one-shell completion; option set) for engine signal, (start-up fault whose detection comes after the events: damaged certificate cache delivered through a FIFO, listen address in use; events) for engine sigfault, (what /dev/tty is in the program's private mount namespace: /dev/null, /dev/zero, /dev/full, an empty or non-empty regular file, a socket, a node that may not be read, a pty whose other end has been closed, a directory, nothing, a dangling link, a link loop; informational flag; descriptors 0-2: all on the pty that is the controlling terminal, no controlling terminal and pipes, all /dev/null, or a mixture; optionally one fault of another class) for engines badtty and badttypair, (seconds the session lasted: 11, 21, 31; what it was doing: idle, shell attached and talking, muted; the self-exit: Ctrl+C, Ctrl+D, -one-shell completion; option set) for engine aged; every case is a run of the real, race-built binary judged on exit status, complete output and termios of the pty before/after"
+	r.Rule = "one distinct case = (set of injected start-up faults by name, informational flag, TTY or not, and - engines long/longpair - the length (300, 450, 600, 1000, 1500, 2500, 3900 bytes) and shape (many short components, few components of up to NAME_MAX bytes, mixed; host names: 100-253 characters, one long label, many labels, many words) of each fault's operand, with or without -callback-address values of 2-8 KiB, and - engines logged/loggedpair - the way an OPENABLE log file is configured on top: -log or CURLREVSHELL_LOG, file fresh or already there; engines stdio/stdiopair - what descriptors 0, 1 and 2 are while the pty stays the CONTROLLING terminal: the terminal, /dev/null, a pipe, a regular file, closed) for fault runs, (way of ending, option set) for clean exits, (way of ending, what descriptors 0-2 are, option set) for clean exits with redirected descriptors (engine stdioclean), (kind of unusable Ctrl+I source or member, member name, -print-ctrl-i on a TTY / without one / into a pipe / into a file or Tab / Ctrl+J followed by Ctrl+C / Ctrl+D, other fault) for the Ctrl+I source runs (engine ctrlisrc), (way of ending, when Tab was pressed relative to it, shell none/attached/stalled, kind of Ctrl+I source, option set) for exits with insertions pending, (signals / terminal events delivered to the running program: SIGCONT alone, to the process or its group, SIGSTOP-SIGCONT, SIGTSTP-SIGCONT, a stop with the terminal handed back and forth as a job-control shell does, SIGWINCH, a real window-size change, a window-size change while stopped, or a drawn sequence of 2-5 of these; the moment: idle prompt, half-typed line, shell attached and talking, muted, right before the exit; the self-exit that follows: Ctrl+C, Ctrl+D, -one-shell completion; option set) for engine signal, (start-up fault whose detection comes after the events: damaged certificate cache delivered through a FIFO, listen address in use; events) for engine sigfault, (what /dev/tty is in the program's private mount namespace: /dev/null, /dev/zero, /dev/full, an empty or non-empty regular file, a socket, a node that may not be read, a pty whose other end has been closed, a directory, nothing, a dangling link, a link loop; informational flag; descriptors 0-2: all on the pty that is the controlling terminal, no controlling terminal and pipes, all /dev/null, or a mixture; optionally one fault of another class) for engines badtty and badttypair, (seconds the session lasted: 11, 21, 31; what it was doing: idle, shell attached and talking, muted; the self-exit: Ctrl+C, Ctrl+D, -one-shell completion; option set) for engine aged, (state of the shell when the exit is asked for: none, only /i/{id} attached, only /o/{id} attached, /io attached, /i + /o attached, in its tear-down with the input side stuck, a refused attempt lingering alone / next to a complete shell / next to half a shell / next to a tear-down, several of these in sequence; the self-exit: Ctrl+C, Ctrl+D, -one-shell completion or -one-shell given and a key; one or two of 24 other documented options) for engine shellstate; every case is a run of the real, race-built binary judged on exit status, complete output and termios of the pty before/after"
 	r.Assumptions = append(r.Assumptions,
 		"the program is started as a session leader on a fresh pty (TTY) or with setsid, no controlling terminal and stdio on pipes/dev-null (no TTY)",
 		"'names the cause' is judged by class keywords (tty|terminal, listen, cach|certificate, log, ctrl+i|insert|source), case-insensitively, on pty+stdout+stderr; the offending path/address is only counted, not demanded",
@@ -1501,6 +1501,8 @@ func Run(r *mon.Run) {
 		"long but legal operands (engines long, longpair, longtwin; the fault classes widened from 'an operand of a few dozen bytes' to 'any operand the system accepts'): the cache faults (below a regular file, is a directory, truncated / garbage / empty content, and as uid 65534 directory not writable / parent not writable / directory not searchable, default location below a HOME or XDG_CACHE_HOME that is below a regular file), the log faults (is a directory, below a regular file, as uid 65534 directory / file not writable) and the missing Ctrl+I sources (absent, dangling link whose target is long as well) with absolute paths of 300, 450, 600, 1000, 1500, 2500 and 3900 bytes made of hundreds of components of 4-15 bytes, of components of 200-255 bytes (the first one exactly NAME_MAX = 255), or of components of any length up to 255 (so neither ENAMETOOLONG nor PATH_MAX is the fault); listen addresses whose host is a name that cannot be resolved: a syntactically valid name of 100-253 characters below .onion, one label of 300-3900 characters, many labels of 10-63 characters adding up to 300-3900, many words with blanks between them - with :0, :4444 or no port; these runs have GODEBUG=netdns=go in their environment, so that the program's resolver is Go's own, which answers for all of these names by itself (RFC 7686; not a domain name): nothing is sent to a name server, the failure is immediate and does not depend on the network; every third case additionally has one or two -callback-address values of 2-8 KiB; quick: three lengths and shapes per fault (at least two of the lengths 600 bytes or more), log and Ctrl+I faults once without a terminal, 10 drawn cross-class pairs; thorough: every (fault, length, shape) and 80 pairs; names are drawn from an alphabet that cannot spell a cause keyword",
 		"oracle of the long-operand runs: that of every fault run (non-zero status, a message with the class's cause keywords anywhere in it, no crash output or signal, terminal mode restored) and one relation: the same fault is run once with SHORT operands (same objects, two short components, a short host name; engine longtwin); the words of that message after its last mention of the operand, to the end of the line ('not a directory', 'permission denied', 'is a directory', 'no such file or directory', 'no such host', 'no suitable address found', ...) are the program's own words for the cause of that fault - in a Go error chain the cause comes last - and the message for the long operand must contain them too (line breaks ignored); the class keywords alone cannot tell a message that names the cause from one that was cut off in the middle of the path, because they precede the operand; nothing is judged about whether or how the operand itself is shown (complete, abbreviated, not at all: only counted); where the short message does not mention the operand or says nothing after it (counted, logged) only the keyword oracle applies",
 		"session age (engine aged): the program says that it listens, is left alone for 11, 21 or 31 s - nobody attached and nothing typed; a shell attached that sends a line every 40 ms; the same with Ctrl+O pressed 0.8 s before the end ('Muting until' awaited, expiry = inconclusive) - and is then asked to leave by Ctrl+C, Ctrl+D or the end of the shell under -one-shell (plus Enter if the program is still there 300 ms after 'Shell is gone': steering only); all sessions run at the same time as the other engines, from the beginning of the run; the clock only decides when the exit is asked for, the verdict is that of every clean exit: status 0 (not demanded if the program had already left), no crash output or death by signal, termios of the controlling terminal after the exit equal to the one before the start; quick: every (exit, activity) once with the ages dealt out as a Latin square rotated by the seed (each age three times), thorough: all 27",
+		"state of the shell at the exit (engine shellstate): fake shells over raw TLS bring the program into one of 13 states, each confirmed on the terminal before the exit is asked for (bounded wait, expiry = inconclusive): no shell; only the input side attached ('Input connected'); only the output side attached ('Output connected'); an /io shell; an /i + /o shell (in either order; 'Shell is ready'); a tear-down - the input side never reads, the operator inserts a 16-32 KiB Ctrl+I source until insertions stop completing, then the output side ends properly ('Output connection closed' and no 'Shell is gone'): one side gone, the other stuck writing; a refused attempt (GET /i/other-id, POST /o/other-id or POST /io with a body begun and never finished, or the attached side's own request again; 'Rejected' awaited) whose connection is left open, after the shell it was refused for has ended, next to a complete /i + /o or /io shell, next to half a shell, or during a tear-down; and 2-4 episodes (input side comes and is dropped, output side comes and ends or is dropped, a refusal next to half a shell, an /io or /i + /o shell that ends; 'Shell is gone' awaited after each) followed by one of the states; each left by Ctrl+C, by Ctrl+D, and with -one-shell given: by the end of the shell where the state has a complete one (out of a tear-down: the stuck connection is dropped), else by Ctrl+C / Ctrl+D; under -one-shell the refusal is made while the listener still listens (next to the first side of the shell) or, for /io and the tear-down, on a connection dialled beforehand, where seeing it refused is only counted (the server closes idle connections once the listener is gone); the fake shells' connections are closed only after the program has exited, except in the tear-down, where - as in the pending-insertion runs - the stuck connection is dropped 2 s after the key if the program is still there and the status is then only counted; judged like every clean exit: status 0, no crash output or death by signal, termios of the controlling terminal after the exit equal to the one before the start",
+		"configuration matrix of engine shellstate: every run has one or two of 24 other documented options on top of -listen-address 127.0.0.1:0 and an explicit, valid -tls-certificate-cache: -serve-files-from a directory / a single file / an empty value / a relative ./x/../ spelling of a symbolic link whose name begins and ends with a blank; -callback-address once / 36 times (names, IPv4 and IPv6 with ports); -callback-template a regular file / a symbolic link / missing; -ctrl-i a file / a directory / missing / a name with % verbs and blanks at the edges; the certificate cache at its default location below a private HOME / inside the served directory (generated at start-up); -log FILE / CURLREVSHELL_LOG=FILE; -no-timestamps; -ipv6-one-liners; -prompt; -listen-address 0.0.0.0:0; all flags spelled -flag=value / --flag; every flag given twice; plus -one-shell as part of the exit dimension; the runs without a tear-down and those with one (whose -ctrl-i is the large source, so the -ctrl-i options are left out) are numbered separately, even numbers take one option in turn (list rotated by the seed), odd numbers the next in turn and a second drawn from the case's PRNG among those that set another flag; every option is floored alone and in all, pairs are floored by number of distinct ones; -icanhazip, -print-ctrl-i, -print-default-template and -h leave no session to exit from and stay with the engines that cover them; the oracle does not depend on the options",
 		"default-location cache faults: no -tls-certificate-cache argument; HOME / XDG_CACHE_HOME point below /proc, below a regular file, or (uid 65534) into a root-owned 0555 directory",
 	)
 
@@ -1609,6 +1611,30 @@ func Run(r *mon.Run) {
 		r.Logf("exits after sessions of 11-31 s done")
 	}()
 	defer func() { <-agedDone }()
+
+	// ---- the state of the shell at the exit, under the configuration matrix ----
+	// These runs mostly wait as well and go on from the beginning of the run,
+	// side by side with everything below.
+	ssDone := make(chan struct{})
+	go func() {
+		defer close(ssDone)
+		plan := ssPlan(r, ssCount(r))
+		var ks []int
+		for k := range plan {
+			if r.Want("shellstate", k) {
+				ks = append(ks, k)
+			}
+		}
+		// the tear-downs take longest: first
+		sort.SliceStable(ks, func(i, j int) bool {
+			return ssTearing(plan[ks[i]].state.name) && !ssTearing(plan[ks[j]].state.name)
+		})
+		mon.Parallel(len(ks), 14, func(i int) {
+			guard(fmt.Sprintf("shellstate-%d", ks[i]), func() { e.runShellState(ks[i], plan[ks[i]], col) })
+		})
+		r.Logf("exits with a shell in every state done")
+	}()
+	defer func() { <-ssDone }()
 
 	// ---- case lists ----
 	var cases []caseSpec
@@ -1972,9 +1998,10 @@ func Run(r *mon.Run) {
 	r.Logf("exits with insertions pending done")
 	<-sgDone
 	<-agedDone
+	<-ssDone
 
 	// Report in a fixed order (engine, index), not in completion order.
-	order := map[string]int{"single": 0, "pair": 1, "logged": 2, "loggedpair": 3, "stdio": 4, "stdiopair": 5, "clean": 6, "icanhazip": 7, "stdioclean": 8, "ctrlisrc": 9, "pending": 10, "signal": 11, "sigfault": 12, "badtty": 13, "badttypair": 14, "longtwin": 15, "long": 16, "longpair": 17, "aged": 18}
+	order := map[string]int{"single": 0, "pair": 1, "logged": 2, "loggedpair": 3, "stdio": 4, "stdiopair": 5, "clean": 6, "icanhazip": 7, "stdioclean": 8, "ctrlisrc": 9, "pending": 10, "signal": 11, "sigfault": 12, "badtty": 13, "badttypair": 14, "longtwin": 15, "long": 16, "longpair": 17, "aged": 18, "shellstate": 19}
 	sort.SliceStable(col.fs, func(i, j int) bool {
 		a, b := col.fs[i], col.fs[j]
 		if order[a.engine] != order[b.engine] {
@@ -2095,6 +2122,7 @@ func Run(r *mon.Run) {
 	// Long but legal operands; sessions that lasted.
 	longFloors(r, uidOK)
 	agedFloors(r)
+	shellStateFloors(r)
 	r.Floor("runs_tty", 50)
 	r.Floor("runs_notty", 25)
 	r.Floor("termios_comparisons", 50)
